@@ -4,7 +4,7 @@ import re
 from .common import X, run_model, run_harness
 
 NAMES = ['a', 'b', 'ab', 'a.b', 'd', 'dd', 'x y', '\u00e9', 'A', 'build', 'builder', 'dist']
-TIMES = [0, 1, 999_999_999, 1_000_000_000, 5_000_000_000, 5_000_000_001, 4_999_999_999, 2**33 * 10**9, 13_569_465_600 * 10**9]
+TIMES = [0, 1, 999_999_999, 1_000_000_000, 9_223_372_036_854_775_807, 9_223_372_036_854_775_808, 10_000_000_000_000_000_123, (2**63 - 1) * 10**9 + 999_999_999, 5_000_000_000, 5_000_000_001, 4_999_999_999, 2**33 * 10**9, 13_569_465_600 * 10**9]
 TARGETS = [('N', 'a'), ('N', 'a/b'), ('N', '../x'), ('X', '/abs/t'), ('N', ''), ('X', 'C:\\w'), ('N', 'd/..//e'), ('X', 'a\\b')]
 KINDS = ['F', 'D', 'U']
 
